@@ -86,7 +86,8 @@ def run(C, R):
                     R.fail('C02.R2', [m['path'], 'non-constant-write'],
                            'is_locked written with a non-constant value %s' % fmt_val(w['val']), where(F, w))
                 rv = path.ret
-                grant = (rv == ('const', 1)) or poll_variant(E, path) == 'Ready'
+                # (a returned bool may be a variable whose value the path knows: `let can_lock = ..; ..; can_lock`)
+                grant = (rv == ('const', 1)) or const_of(E, path.facts, rv) == 1 or poll_variant(E, path) == 'Ready'
                 if len(sets) > 1:
                     R.fail('C02.R2', [m['path'], 'double-set', path_cond(E, path)],
                            'is_locked set twice on one path', where(F, sets[1]))
